@@ -1822,7 +1822,6 @@ func inlinedArith(info *types.Info, e ast.Expr) bool {
 	return hd.defs == nil && hasArith(hd.ret)
 }
 
-
 // initOnlyDefines: an if statement's init that only introduces locals (`if flat := &flats[vi]; !flat.Slashed {`): the
 // condition is then a condition on what the locals were defined as, like one written on the line below the definition.
 func initOnlyDefines(init ast.Stmt) bool {
@@ -1849,4 +1848,3 @@ func guardOf(info *types.Info, parents map[ast.Node]ast.Node, n ast.Node, defs m
 	sort.Strings(keep)
 	return strings.Join(keep, " & ")
 }
-
